@@ -33,6 +33,7 @@ func (c03) RequiredBuckets(tier string) []string {
 		}
 	}
 	out = append(out, "Slice|wrap", "Slice|negative", "Slice|forward", "Slice|refs", "Slice|of-a-slice", "Slice|source-feature", "Slice|host:genbank")
+	out = append(out, "cmd:delete", "cmd:delete -e", "cmd:extract", "cmd:extract -v", "cmd:split", "stream:records-independent")
 	return out
 }
 func (c03) Findings() []fw.Finding {
@@ -649,4 +650,6 @@ func (m c03) Run(c *fw.Ctx) {
 		}
 		m.check(c, k)
 	}
+	// the commands the property names as observation points, on the real binary.
+	c15Drive(c, []c15cmd{{"delete", nil}, {"delete", []string{"-e"}}, {"extract", nil}, {"extract", []string{"-v"}}, {"split", nil}}, c.Pick(120, 3000))
 }
